@@ -54,10 +54,12 @@ class LineInterleaver:
 	"""Runs N callables in N real threads, exactly one at a time; every 'line' event in a source file accepted by `watch(filename)`
 	is a scheduling point.  run(prefix) -> (trace, results) in the format explore() expects."""
 
-	def __init__(self, bodies, watch, timeout=30):
+	def __init__(self, bodies, watch, timeout=30, max_active=None, on_done=None):
 		self.bodies = bodies
 		self.watch = watch
 		self.timeout = timeout
+		self.max_active = max_active     # pool semantics: at most this many bodies started and unfinished; bodies start in index order
+		self.on_done = on_done           # callback(i, result) when body i finishes (e.g. complete its future)
 
 	def run(self, prefix):
 		n = len(self.bodies)
@@ -95,6 +97,11 @@ class LineInterleaver:
 				results[i] = ('exc', repr(e))
 			finally:
 				sys.settrace(None)
+				if self.on_done is not None:
+					try:
+						self.on_done(i, results[i])
+					except BaseException as e:
+						results[i] = ('exc', 'on_done: ' + repr(e))
 				state[i] = 'done'
 				sched.release()
 
@@ -103,14 +110,25 @@ class LineInterleaver:
 			t.start()
 		trace = []
 		running = -1
+		started = set()
 		while any(s != 'done' for s in state):
-			run_en = running >= 0 and state[running] == 'ready'
-			order = ([running] if run_en else []) + [i for i in range(n) if state[i] == 'ready' and not (run_en and i == running)]
+			def can_run(i):
+				if state[i] != 'ready':
+					return False
+				if i in started or self.max_active is None:
+					return True
+				active = sum(1 for j in started if state[j] != 'done')
+				return active < self.max_active and all(j in started for j in range(i))
+			run_en = running >= 0 and can_run(running)
+			order = ([running] if run_en else []) + [i for i in range(n) if can_run(i) and not (run_en and i == running)]
+			if not order:
+				raise HarnessError('interleaver: no body can run')
 			c = prefix[len(trace)] if len(trace) < len(prefix) else 0
 			if not 0 <= c < len(order):
 				raise HarnessError(f'choice {c} out of range at point {len(trace)} ({len(order)} enabled)')
 			trace.append((len(order), 1 if run_en else 0, c))
 			running = order[c]
+			started.add(running)
 			sems[running].release()
 			if not sched.acquire(timeout=timeout):
 				raise HarnessError('interleaver: running thread never yielded')
